@@ -24,6 +24,8 @@ type Src struct {
 	PLevel    *Level
 	VLevel    Level
 	wide      int64
+	twin      int // same name as Twin up to case, but of a type that does not fit
+	Twin      string
 }
 
 func (s *Src) Both2() string        { return s.Both }
@@ -55,6 +57,7 @@ type Dst struct {
 	Wide             int64
 	UnexportedGetter int
 	Nothing          int
+	Twin             string
 }
 
 // DstP receives from the imported ext.Profile.
